@@ -29,6 +29,17 @@ def check(run):
     ncases = sum(1 for _ in open(cases))
     run.vh(["c07-replay", cases, run.path("trace.ndjson")])
     n = judge(run, run.path("trace.ndjson"), "whole space")
+    # growth leg (observations only): the *New constructors, Constructors.tla
+    run.tlc_model("Constructors", "ctor_model", workers=4)
+    run.tlc_eval("ConstructorsGen", "ctor_model")
+    run.vh(["ctor-run", run.spec_path("ctor_calls.ndjson"), run.path("ctor_trace.ndjson")])
+    shutil.copy(run.path("ctor_trace.ndjson"), run.spec_path("ctor_trace.ndjson"))
+    rc = run.tlc_eval("ConstructorsTrace", "ctor_trace")
+    cev = vlib.read_ndjson(run.path("ctor_trace.ndjson"))
+    for b in rc.json_lines()[-1]["bad"]:
+        ev = cev[b["l"] - 1]
+        run.note("ctor:%s(%s):%s" % (ev["c"], ev["typ"], "+".join(b["why"])), "constructor reply %s differs from Constructors.tla" % json.dumps(ev["res"]))
+    n += len(cev)
     for i, ev in enumerate(vlib.read_ndjson(run.path("trace.ndjson"))):
         if i % 200 == 5:
             run.sample(ev)
